@@ -1126,3 +1126,133 @@ B('pkgA_phase_fast_path_reports_nothing', ['C01', 'C04'], {'C01': 'R01.b', 'C04'
 B('pkgA_render_fast_path_constant_tuple', ['C01', 'C04'], {'C01': 'R01.b', 'C04': 'R04.e'},
   (C, _RN_MAKE_OLD, "    if rn_funcs:\n" + _RN_MAKE_OLD.replace("    rn_chain", "        rn_chain").replace("\n     ", "\n         ") +
       "    else:\n        rn_chain, rn_args, rn_unres = render, set(get_arg_names(render)) & rn_avail, ()\n"))
+
+
+# =================================================================== fifth pass (refactoring round 4: moves, modernisation, control flow, data)
+# ------------------------------------------------------------------ sinter.build_chain_str: the tails of the depth loop reversed in place
+_BCS_LOOP_TAIL = "    return ''.join(def_strs + tail_strs[::-1])\n"
+_BCS_LOOP_REV = _BCS_LOOP.replace(_BCS_LOOP_TAIL, "    tail_strs.reverse()\n    return ''.join(def_strs + tail_strs)\n")
+_BCS_LOOP_REV_ALIAS = _BCS_LOOP.replace(_BCS_LOOP_TAIL, "    closing = tail_strs\n    closing.reverse()\n    return ''.join(def_strs + tail_strs)\n")
+T('pkgA_twin_level_depth_loop_tails_reversed_in_place', ['C01', 'C02', 'C03'], (S, _BCS_LOOP_OLD, _BCS_LOOP_REV % _LOOP_OK))
+T('pkgA_twin_level_depth_loop_tails_reversed_through_alias', ['C01', 'C02', 'C03'], (S, _BCS_LOOP_OLD, _BCS_LOOP_REV_ALIAS % _LOOP_OK))
+_BCS_LOOP_REV_ALIAS_FIRST = _BCS_LOOP_REV.replace("    tail_strs = []\n", "    tail_strs = []\n    closing = tail_strs\n").replace(
+    "    tail_strs.reverse()\n", "    closing.reverse()\n")
+T('pkgA_twin_level_depth_loop_tails_reversed_through_earlier_alias', ['C01', 'C02', 'C03'], (S, _BCS_LOOP_OLD, _BCS_LOOP_REV_ALIAS_FIRST % _LOOP_OK))
+B('pkgA_level_depth_loop_reversed_in_place_update_after_filter', ['C01', 'C02', 'C03'], {'C01': 'R01.f', 'C02': 'R02.b', 'C03': 'R03.b'},
+  (S, _BCS_LOOP_OLD, _BCS_LOOP_REV % _LOOP_LATE_UPDATE))
+B('pkgA_level_depth_loop_reversed_in_place_positional_call', ['C01', 'C02'], {'C01': 'R01.f', 'C02': 'R02.a'},
+  (S, _BCS_LOOP_OLD, _BCS_LOOP_REV % (_LOOP_OK.replace("'%s=%s' % (name, name)", "'%s' % (name,)"))))
+
+# ------------------------------------------------------------------ core.make_middleware_chain: the request provides flattened by set().union(*..)
+_FLAT_OLD = "    req_all_provides = set(itertools.chain.from_iterable(req_provides))\n"
+T('pkgA_twin_request_provides_union_star', ALL4, (C, _FLAT_OLD, "    req_all_provides = set().union(*req_provides)\n"))
+T('pkgA_twin_request_provides_union_star_from_request_names', ALL4,
+  (C, _FLAT_OLD, "    req_all_provides = set(req_avail).union(*req_provides)\n"))
+B('pkgA_request_provides_union_star_from_context', ['C01', 'C04'], {'C01': 'R01.d', 'C04': 'R04.e'},
+  (C, _FLAT_OLD, "    req_all_provides = {'context'}.union(*req_provides)\n"))
+B('pkgA_request_provides_union_star_from_preprovided', ['C01', 'C04'], {'C01': 'R01.d', 'C04': 'R04.e'},
+  (C, _FLAT_OLD, "    req_all_provides = set(preprovided).union(*req_provides)\n"))
+B('pkgA_request_provides_union_star_dropped', ['C01'], 'R01.d',
+  (C, _FLAT_OLD, "    req_all_provides = set().union(*())\n"))
+
+# ------------------------------------------------------------------ definitions that live in another module of the package and are imported back
+_CORE_IMPORT_OLD = "from ..sinter import make_chain, get_arg_names, compile_code\n"
+_SINTER_ANCHOR = "def compile_chain(funcs, params, inner_name, verbose=_VERBOSE):\n"
+_MERGE_DEF = ("def merge_middlewares(old, new):\n"
+              "    # TODO: since duplicate provides aren't allowed\n"
+              "    # an error needs to be raised if a middleware is\n"
+              "    # set to non-unique and has provides params\n"
+              "    old = list(old)\n"
+              "    merged = list(new)\n"
+              "    for mw in old:\n"
+              "        if mw.unique and mw in merged:\n"
+              "            if mw.reorderable:\n"
+              "                continue\n"
+              "            else:\n"
+              "                raise ValueError('multiple inclusion of unique '\n"
+              "                                 'middleware %r' % mw.name)\n"
+              "        merged.append(mw)\n"
+              "    return merged\n"
+              "\n\n")
+
+
+def _merge_moved(text):
+    return ((C, _MERGE_DEF, ""), (C, _CORE_IMPORT_OLD, "from ..sinter import make_chain, get_arg_names, compile_code, merge_middlewares\n"),
+            (S, _SINTER_ANCHOR, text + _SINTER_ANCHOR))
+T('pkgA_twin_merge_lives_in_another_module', ALL4, *_merge_moved(_MERGE_DEF))
+B('pkgA_merge_in_another_module_drops_non_unique_duplicates', ['C01', 'C03', 'C04'], {'C01': 'R01.a', 'C03': 'R03.d', 'C04': 'R04.a'},
+  *_merge_moved(_MERGE_DEF.replace("if mw.unique and mw in merged:", "if mw in merged:")))
+B('pkgA_merge_in_another_module_accumulates_in_the_callers_list', ALL4, {'C01': 'R01.a', 'C02': 'R02.b', 'C03': 'R03.d', 'C04': 'R04.a'},
+  *_merge_moved(_MERGE_DEF.replace("merged = list(new)", "merged = new")))
+B('pkgA_merge_in_another_module_skips_non_reorderable', ['C03'], 'R03.d',
+  *_merge_moved(_MERGE_DEF.replace("            if mw.reorderable:\n                continue\n            else:\n"
+                                   "                raise ValueError('multiple inclusion of unique '\n"
+                                   "                                 'middleware %r' % mw.name)\n", "            continue\n")))
+
+_CHECKS_DEF = ("def check_middleware(mw):\n"
+               "    for f_name in ('request', 'endpoint', 'render'):\n"
+               "        func = getattr(mw, f_name, None)\n"
+               "        if not func:\n"
+               "            continue\n"
+               "        if not callable(func):\n"
+               "            raise TypeError('expected %s.%s to be a function'\n"
+               "                            % (mw.name, f_name))\n"
+               "        if not get_arg_names(func)[0] == 'next':\n"
+               "            raise TypeError(\"middleware functions must take argument\"\n"
+               "                            \" 'next' as the first parameter (%s.%s)\"\n"
+               "                            % (mw.name, f_name))\n"
+               "    return\n"
+               "\n\n"
+               "def check_middlewares(middlewares, args_dict=None):\n"
+               "    args_dict = args_dict or {}\n"
+               "\n"
+               "    provided_by = defaultdict(list)\n"
+               "    for source, arg_list in args_dict.items():\n"
+               "        for arg_name in arg_list:\n"
+               "            provided_by[arg_name].append(source)\n"
+               "\n"
+               "    for mw in middlewares:\n"
+               "        check_middleware(mw)\n"
+               "        for arg in mw.provides:\n"
+               "            provided_by[arg].append(mw)\n"
+               "        for arg in mw.endpoint_provides:\n"
+               "            provided_by[arg].append(mw)\n"
+               "        for arg in mw.render_provides:\n"
+               "            provided_by[arg].append(mw)\n"
+               "\n"
+               "    conflicts = [(n, tuple(ps)) for (n, ps) in\n"
+               "                 provided_by.items() if len(ps) > 1]\n"
+               "    if conflicts:\n"
+               "        raise NameError('found conflicting provides: %r' % conflicts)\n"
+               "    return True\n"
+               "\n\n")
+
+
+def _checks_moved(text, extra=""):
+    return ((C, _CHECKS_DEF, ""),
+            (C, _CORE_IMPORT_OLD, "from ..sinter import make_chain, get_arg_names, compile_code, check_middleware, check_middlewares\n"),
+            (S, _SINTER_ANCHOR, "from collections import defaultdict\n" + extra + "\n\n" + text + _SINTER_ANCHOR))
+T('pkgA_twin_checks_live_in_another_module', ['C01', 'C04'], *_checks_moved(_CHECKS_DEF))
+# (the reserved first parameter named by a constant of the module the check lives in now)
+T('pkgA_twin_checks_in_another_module_first_parameter_constant', ['C01', 'C04'],
+  *_checks_moved(_CHECKS_DEF.replace("get_arg_names(func)[0] == 'next'", "get_arg_names(func)[0] == _FIRST_PARAMETER"), "_FIRST_PARAMETER = 'next'\n"))
+B('pkgA_checks_in_another_module_first_parameter_constant_wrong', ['C04'], 'R04.d',
+  *_checks_moved(_CHECKS_DEF.replace("get_arg_names(func)[0] == 'next'", "get_arg_names(func)[0] == _FIRST_PARAMETER"), "_FIRST_PARAMETER = 'self'\n"))
+B('pkgA_checks_in_another_module_conditional_per_middleware_check', ['C04'], 'R04.d',
+  *_checks_moved(_CHECKS_DEF.replace("        check_middleware(mw)\n", "        if mw.provides:\n            check_middleware(mw)\n")))
+B('pkgA_checks_in_another_module_render_provides_not_recorded', ['C04'], 'R04.a',
+  *_checks_moved(_CHECKS_DEF.replace("        for arg in mw.render_provides:\n            provided_by[arg].append(mw)\n", "")))
+B('pkgA_checks_in_another_module_slot_table_lacks_render', ['C04'], 'R04.d',
+  *_checks_moved(_CHECKS_DEF.replace("for f_name in ('request', 'endpoint', 'render'):", "for f_name in ('request', 'endpoint'):")))
+
+# (a string helper of the request core that lives in another module: the template evaluator follows the import)
+_NAS_DEF = "def _named_arg_str(args):\n    return ', '.join([a + '=' + a for a in args])\n\n\n"
+
+
+def _nas_moved(body):
+    return ((C, _NAS_DEF, ""), (C, _CORE_IMPORT_OLD, "from ..sinter import make_chain, get_arg_names, compile_code, named_arg_str\n"),
+            (C, "    ep_args_str = _named_arg_str(endpoint_args)\n    rn_args_str = _named_arg_str(render_args)\n",
+                "    ep_args_str = named_arg_str(endpoint_args)\n    rn_args_str = named_arg_str(render_args)\n"),
+            (S, _SINTER_ANCHOR, "def named_arg_str(args):\n    return %s\n\n\n" % body + _SINTER_ANCHOR))
+T('pkgA_twin_request_core_arg_string_helper_in_another_module', ['C02', 'C03'], *_nas_moved("', '.join([a + '=' + a for a in args])"))
+B('pkgA_request_core_arg_string_helper_in_another_module_positional', ['C02'], 'R02.a', *_nas_moved("', '.join([a for a in args])"))
